@@ -186,6 +186,32 @@ def truncate_edge(ts, rng):
         return ts, None
 
 
+def truncate_leaf_edge(ts, rng):
+    """Cut away part of one edge above a sample node: that sample is isolated there (missing data on one
+    haplotype)."""
+    t = ts.dump_tables()
+    samples = set(int(u) for u in ts.samples())
+    cand = [e for e in ts.edges() if e.child in samples and e.right - e.left >= 3]
+    if not cand:
+        return None
+    e = cand[int(rng.integers(0, len(cand)))]
+    a = float(np.floor(rng.uniform(e.left + 1, e.right - 1)))
+    left = t.edges.left.copy()
+    right = t.edges.right.copy()
+    if rng.random() < 0.5:
+        right[e.id] = a
+    else:
+        left[e.id] = a
+    t.edges.set_columns(left=left, right=right, parent=t.edges.parent, child=t.edges.child)
+    try:
+        t.sort()
+        t.build_index()
+        t.compute_mutation_parents()
+        return t.tree_sequence()
+    except Exception:
+        return None
+
+
 def gen_single_event(rng):
     """A clean simulated input (no unary nodes) with exactly one edge truncated."""
     ts, info = gen.sim_ts(rng, n=int(rng.integers(3, 9)), trees=int(rng.choice([1, 1, 2, 3, 5, 8])),
